@@ -52,7 +52,7 @@ def files(v):
     f['recipes/lib.yaml'] = ('inherit: [base, cls]\n'
                              'checkoutSCM:\n    scm: import\n    url: src/lib\n'
                              'checkoutDeterministic: True\n'
-                             'checkoutScript: |\n    vlog "lib checkout"\n    fault lib-checkout generated.txt\n    echo generated%s > generated.txt\n'
+                             'checkoutScript: |\n    vlog "lib checkout"\n    fault lib-checkout generated.txt\n    echo generated%s > generated.txt\n    touch -d @946684800 -- *.txt   # reproducible-build style timestamp clamping: edits keep size, mtime and inode\n'
                              'metaEnvironment:\n    LICENSE: "MIT"\n'
                              'buildVars: [%s]\n'
                              'buildTools: [gen]\n'
